@@ -188,9 +188,6 @@ func TestVerifC13_ed25519(t *testing.T) {
 		var P pointR1
 		if try("fixedMult", id, func() { P.fixedMult(kb) }) {
 			check("fixedMult", "k="+s.Name, id, &P, ref.BaseMult(s.V), map[string]string{"k_le": verifmc.FullHex(kb)})
-			if !bytes.Equal(kb, fpx.ToLE(s.V, 32)) {
-				bad("fixedMult", "mutates-scalar|k="+s.Name, id, "the caller's scalar was modified", nil)
-			}
 		}
 		r.Eval(1)
 		r.Transition(1)
